@@ -180,8 +180,10 @@ func invalidTexts(fd protoreflect.FieldDescriptor) []string {
 		return []string{"abc", "1.5", "-1", "4294967296", "1x"}
 	case protoreflect.Uint64Kind, protoreflect.Fixed64Kind:
 		return []string{"abc", "1.5", "-1", "18446744073709551616", "1x"}
-	case protoreflect.FloatKind, protoreflect.DoubleKind:
-		return []string{"abc", "1.2.3", "--1", "1e", "0x"}
+	case protoreflect.FloatKind:
+		return []string{"abc", "1.2.3", "--1", "1e", "0x", "1e39", "-1e39", "3.5e38", "1e309"} // incl. numbers beyond the float32 range
+	case protoreflect.DoubleKind:
+		return []string{"abc", "1.2.3", "--1", "1e", "0x", "1e309", "-1e400"}
 	case protoreflect.BoolKind:
 		return []string{"yes", "2", "truee", "t"}
 	case protoreflect.BytesKind:
@@ -194,12 +196,20 @@ func invalidTexts(fd protoreflect.FieldDescriptor) []string {
 			return []string{"2017-13-45T00:00:00Z", "yesterday", "2017-01-15", "1484443815"}
 		case "google.protobuf.Duration":
 			return []string{"5", "abc", "1.5", "s"}
-		case "google.protobuf.Int32Value", "google.protobuf.Int64Value", "google.protobuf.UInt32Value", "google.protobuf.UInt64Value":
-			return []string{"abc", "1.5", "1x"}
+		case "google.protobuf.Int32Value":
+			return []string{"abc", "1.5", "1x", "2147483648", "-2147483649"}
+		case "google.protobuf.UInt32Value":
+			return []string{"abc", "1.5", "1x", "-1", "4294967296"}
+		case "google.protobuf.Int64Value":
+			return []string{"abc", "1.5", "1x", "9223372036854775808"}
+		case "google.protobuf.UInt64Value":
+			return []string{"abc", "1.5", "1x", "-1", "18446744073709551616"}
 		case "google.protobuf.BoolValue":
 			return []string{"yes", "2"}
-		case "google.protobuf.FloatValue", "google.protobuf.DoubleValue":
-			return []string{"abc", "1.2.3"}
+		case "google.protobuf.FloatValue":
+			return []string{"abc", "1.2.3", "1e39", "-3.5e38"}
+		case "google.protobuf.DoubleValue":
+			return []string{"abc", "1.2.3", "1e309"}
 		case "google.protobuf.BytesValue":
 			return []string{"!!!!", "a"}
 		}
